@@ -144,6 +144,30 @@ def history_scenarios():
     return out
 
 
+def many_stop_scenarios(rng, quick):
+    """stop lists longer than anything TLC enumerates (the walker's stop search is a loop over the list: 16 / 17 / 18,
+       31 / 33, 64, 100 stops), positions on a 1/64 lattice so that repeated positions (hard edges) and pixels landing
+       exactly on a stop occur, random colours; every kind, every repeat mode, narrow and wide"""
+    F, Hh = 65536, 32768
+    geoms = [("linear", [0, 0, 32 * Hh, 0]),                               # t = (x + .5) / 16
+             ("linear", [8 * Hh, 0, 16 * Hh, 0]),                          # t = (x + .5 - 4) / 4: beyond both ends
+             ("radial", [12 * Hh, 2 * Hh, 0, 12 * Hh, 2 * Hh, 12 * Hh]),
+             ("conical", [12 * Hh, 2 * Hh, 0])]
+    vals = [0, 1, 127, 128, 254, 255]
+    out = []
+    k = 0
+    for n in ((16, 17, 18, 33) if quick else (16, 17, 18, 31, 32, 33, 64, 65, 100)):
+        for rep_ in range(1 if quick else 4):
+            xs = sorted(rng.choice([0, 0, 1, 2] + list(range(0, 65)) + [63, 64, 64]) for _ in range(n))
+            stops = [[x * 1024] + [rng.choice(vals) * 257 for _ in range(3)] + [rng.choice([0, 128, 255, 255]) * 257] for x in xs]
+            for kind, g in geoms:
+                for repeat in ("NONE", "NORMAL", "PAD", "REFLECT"):
+                    k += 1
+                    wide = k % 2
+                    out.append(g_line(1, kind, repeat, wide, stops, g, None))
+    return out
+
+
 def safety_scenarios(rng, n):
     """arbitrary / garbage stop lists, degenerate geometry, singular transforms: only 'returns' is required"""
     F = 65536
@@ -362,6 +386,10 @@ def run(prop, args):
         execs.append(["R k%d" % i, g_line(1, s["kind"], s["repeat"], False, s["stops"], s["g"], s["m"],
                                            mask=mask_for(i + args.seed))])
     chk.extra["masked_scenarios"] = len(masked)
+    many = many_stop_scenarios(rng, quick)
+    for i, line in enumerate(many):
+        execs.append(["R n%d" % i, line])
+    chk.extra["many_stop_scenarios"] = len(many)
     hist = history_scenarios()
     for i, line in enumerate(hist):
         execs.append(["R h%d" % i, line])
